@@ -213,6 +213,65 @@ type c08World struct {
 func c08NodeName(i int) string { return fmt.Sprintf("node-%c", 'a'+i) }
 
 func c08NewWorld(t *testing.T, run *vk.Run, backend string, ttl time.Duration, nNodes int, sweeper bool) *c08World {
+	return c08NewWorldF(t, run, backend, ttl, nNodes, sweeper, nil)
+}
+
+// c08Fault fails exactly one storage operation while armed: the j-th occurrence of a
+// given "<op> <key class>" (so that operations of unrelated background goroutines do
+// not shift the target).
+type c08Fault struct {
+	mu     sync.Mutex
+	armed  bool
+	target string
+	j      int
+	seen   map[string]int
+	order  []string // distinct "<op> <key class>" in first-seen order
+	fired  string
+}
+
+func c08KeyClass(key string) string {
+	if i := strings.LastIndex(key, ":"); i >= 0 {
+		return key[:i+1]
+	}
+	return key
+}
+
+func (f *c08Fault) hook(tier, op, key string) error {
+	f.mu.Lock()
+	defer f.mu.Unlock()
+	if !f.armed {
+		return nil
+	}
+	id := op + " " + c08KeyClass(key)
+	if f.seen[id] == 0 {
+		f.order = append(f.order, id)
+	}
+	f.seen[id]++
+	if id == f.target && f.seen[id] == f.j && f.fired == "" {
+		f.fired = id
+		return vk.ErrInjected
+	}
+	return nil
+}
+
+// arm starts observing; target "" only records what the handshake does.
+func (f *c08Fault) arm(target string, j int) {
+	f.mu.Lock()
+	f.armed, f.target, f.j, f.fired = true, target, j, ""
+	f.seen, f.order = map[string]int{}, nil
+	f.mu.Unlock()
+}
+
+// disarm stops observing and returns (operation kinds seen in order, their counts, what was failed).
+func (f *c08Fault) disarm() ([]string, map[string]int, string) {
+	f.mu.Lock()
+	defer f.mu.Unlock()
+	f.armed = false
+	return f.order, f.seen, f.fired
+}
+
+// c08NewWorldF: with fault != nil every node's store is a gated double whose hook is fault.hook.
+func c08NewWorldF(t *testing.T, run *vk.Run, backend string, ttl time.Duration, nNodes int, sweeper bool, fault *c08Fault) *c08World {
 	be, err := c08NewBackend(backend)
 	if err != nil {
 		t.Fatalf("c08: backend %s: %v", backend, err)
@@ -224,6 +283,15 @@ func c08NewWorld(t *testing.T, run *vk.Run, backend string, ttl time.Duration, n
 		st, err := be.storeFor(i)
 		if err != nil {
 			t.Fatalf("c08: store for node %d: %v", i, err)
+		}
+		if fault != nil {
+			fs, ok := st.(storage.FullStorage)
+			if !ok {
+				t.Fatalf("c08: store of backend %s is not a FullStorage", backend)
+			}
+			g := vk.NewGated(c08NodeName(i), fs)
+			g.SetHook(fault.hook)
+			st = g
 		}
 		sc := &session.SessionConfig{HeartbeatTimeout: time.Hour, CleanupInterval: time.Hour, MaxConnections: 1000000, MaxControlConnections: 1000000}
 		if sweeper {
@@ -589,6 +657,13 @@ func (w *c08World) settleDropped(cl *c08Client) {
 // cleanup lets the node of an abandoned connection finally notice (what the adapter
 // read loop / the stale sweeper do: SessionManager.CloseConnection).
 func (w *c08World) cleanup(cl *c08Client, newest bool) bool {
+	return w.cleanupVia(cl, newest, false)
+}
+
+// cleanupVia: with viaCommand the abandoned connection ends with the client's Disconnect
+// command still in flight on it (make-before-break move: the client said goodbye on the
+// old connection after it had already handshaken elsewhere), then the transport end.
+func (w *c08World) cleanupVia(cl *c08Client, newest, viaCommand bool) bool {
 	if len(cl.zombies) == 0 {
 		return false
 	}
@@ -600,12 +675,19 @@ func (w *c08World) cleanup(cl *c08Client, newest bool) bool {
 	cl.zombies = append(cl.zombies[:k], cl.zombies[k+1:]...)
 	w.be.sync()
 	unexpired := time.Now().Before(z.lastKA.c.Add(w.ttl))
+	if viaCommand {
+		_ = z.mc.Send(&packet.TransferPacket{PacketType: packet.JsonCommand, CommandPacket: &packet.CommandPacket{CommandType: packet.Disconnect, CommandId: "c08-bye-old"}})
+		w.run.Count("disconnect_cmd_on_abandoned|"+w.be.name, 1)
+	}
 	z.mc.CloseByPeer()
 	cl.closed[z.id] = "late-cleanup"
 	cl.cleaned = 1
 	kind := "zO"
 	if newest {
 		kind = "zN"
+	}
+	if viaCommand {
+		kind = "zd"
 	}
 	w.ev(cl, kind, fmt.Sprintf("late-cleanup %s@%s", z.id, w.nodes[z.node].NodeID))
 	if cl.cur != nil && cl.cur.node != z.node && unexpired {
@@ -1008,7 +1090,7 @@ func (w *c08World) judge(cl *c08Client, asker int, a c08Answer) *c08Pending {
 // ---------------------------------------------------------------- exhaustive
 
 // alphabet of the enumeration (one client, two nodes)
-var c08Alpha = []string{"cA", "cB", "hb", "re", "zO", "x", "xd", "tB", "hz", "sw", "ri"}
+var c08Alpha = []string{"cA", "cB", "hb", "re", "zO", "zd", "x", "xd", "tB", "hz", "sw", "ri"}
 
 func (w *c08World) apply(cl *c08Client, sym string) bool {
 	switch sym {
@@ -1037,6 +1119,8 @@ func (w *c08World) apply(cl *c08Client, sym string) bool {
 		return w.cleanup(cl, false)
 	case "zN":
 		return w.cleanup(cl, true)
+	case "zd":
+		return w.cleanupVia(cl, true, true)
 	case "x":
 		return w.closeCur(cl, false)
 	case "xd":
@@ -1076,7 +1160,7 @@ func TestVerifC08Exhaustive(t *testing.T) {
 	run := vk.Start(t, "C08", "exhaustive")
 	defer run.Finish()
 	depth := run.Pick(4, 5)
-	run.Rule(fmt.Sprintf("per backend (%s), registration lifetime 5 min, two nodes, one fresh client per sequence: every applicable sequence of %d events over {connect@A, connect@B, heartbeat, re-login on current, late cleanup of the oldest abandoned connection, close current (transport end), close current (Disconnect command), tunnel-type connection on B, late heartbeat on the newest abandoned connection, current connection closed by the node's real stale sweeper (connection aged white-box) followed by the adapter cleanup, a second provisioned identity re-authenticating (real challenge-response) on the client's current connection}; the connection-state lookup and the cloud-control view (GetClientNodeID) of every node are judged; all nodes looked up after every event and after closing what is left; distinct = backend x event sequence; non-trivial = contains a reconnect or a close", strings.Join(c08BackendNames, ", "), depth))
+	run.Rule(fmt.Sprintf("per backend (%s), registration lifetime 5 min, two nodes, one fresh client per sequence: every applicable sequence of %d events over {connect@A, connect@B, heartbeat, re-login on current, late cleanup of the oldest abandoned connection, Disconnect command on the newest abandoned connection + its cleanup, close current (transport end), close current (Disconnect command), tunnel-type connection on B, late heartbeat on the newest abandoned connection, current connection closed by the node's real stale sweeper (connection aged white-box) followed by the adapter cleanup, a second provisioned identity re-authenticating (real challenge-response) on the client's current connection}; the connection-state lookup and the cloud-control view (GetClientNodeID) of every node are judged; all nodes looked up after every event and after closing what is left; distinct = backend x event sequence; non-trivial = contains a reconnect or a close", strings.Join(c08BackendNames, ", "), depth))
 	// the backends are independent worlds (own store, own nodes): enumerate them side by side
 	worlds := make([]*c08World, len(c08BackendNames))
 	for i, be := range c08BackendNames {
@@ -1150,7 +1234,7 @@ func c08Applicable(seq []string, sym string) bool {
 				zombies++
 			}
 			cur, known = true, true
-		case s == "zO" || s == "zN":
+		case s == "zO" || s == "zN" || s == "zd":
 			zombies--
 		case s == "x" || s == "xd" || s == "sw" || s == "ri":
 			cur = false
@@ -1161,7 +1245,7 @@ func c08Applicable(seq []string, sym string) bool {
 		return true
 	case sym == "hb" || sym == "re" || sym == "x" || sym == "xd" || sym == "sw" || sym == "ri":
 		return cur
-	case sym == "zO" || sym == "zN" || sym == "hz" || sym == "hO":
+	case sym == "zO" || sym == "zN" || sym == "zd" || sym == "hz" || sym == "hO":
 		return zombies > 0
 	case sym[0] == 't':
 		return known
@@ -1242,8 +1326,11 @@ func c08Pick(r *rand.Rand, cl *c08Client) string {
 	case x < 42:
 		return "hb"
 	case x < 62:
-		if r.Intn(2) == 0 {
+		switch r.Intn(3) {
+		case 0:
 			return "zN"
+		case 1:
+			return "zd"
 		}
 		return "zO"
 	case x < 72:
@@ -1265,6 +1352,242 @@ func c08Pick(r *rand.Rand, cl *c08Client) string {
 		return "rz"
 	}
 	return "ri"
+}
+
+// ---------------------------------------------------------------- single storage faults
+
+// located asks every node (both views) without judging: is cl found at its current connection?
+func (w *c08World) located(cl *c08Client) (connOK, cloudOK bool, got string) {
+	w.be.sync()
+	connOK, cloudOK = true, true
+	want := w.nodes[cl.cur.node].NodeID
+	for ni, n := range w.nodes {
+		a := w.ask(cl, ni)
+		if !w.isCurrent(cl, a) {
+			connOK = false
+			got += fmt.Sprintf("[%s: FindClientNode node=%q conn=%q err=%v]", n.NodeID, a.node, a.conn, a.err)
+		}
+		cn, cerr := n.CC.GetClientNodeID(cl.id)
+		w.run.Count("cloud_lookups", 1)
+		if cerr != nil || cn != want {
+			cloudOK = false
+			got += fmt.Sprintf("[%s: GetClientNodeID node=%q err=%v]", n.NodeID, cn, cerr)
+		}
+	}
+	return
+}
+
+// handshakeWithFault performs the scenario's handshake with the k-th storage operation of
+// the handshake failing once (k = 0: none). Returns operations seen and what failed.
+func (w *c08World) handshakeWithFault(f *c08Fault, cl *c08Client, scen string, target string, j int) (order []string, seen map[string]int, fired string, accepted bool) {
+	f.arm(target, j)
+	switch scen {
+	case "connect", "reconnect-other-node":
+		node := 0
+		if scen == "reconnect-other-node" {
+			node = 1
+		}
+		accepted = w.connectQuiet(cl, node)
+	case "relogin":
+		c := cl.cur
+		c0 := w.be.sync()
+		ok, _ := c.mc.Login(cl.id, cl.secret, "control")
+		if ok {
+			c.hs = c08Span{c0, time.Now()}
+			c.lastKA, c.chain = c.hs, true
+			w.ev(cl, "re", "relogin "+c.id)
+		}
+		accepted = ok
+	}
+	order, seen, fired = f.disarm()
+	return
+}
+
+// connectQuiet is connect() for fault histories: a refused handshake is an outcome, not a
+// harness error (the client keeps whatever connection it had).
+func (w *c08World) connectQuiet(cl *c08Client, node int) bool {
+	n := w.nodes[node]
+	c0 := w.be.sync()
+	mc, err := n.Connect("")
+	if err != nil {
+		return false
+	}
+	if ok, _ := mc.Login(cl.id, cl.secret, "control"); !ok {
+		mc.CloseByPeer()
+		w.trace = append(w.trace, fmt.Sprintf("c%d:handshake refused@%s", cl.idx, n.NodeID))
+		return false
+	}
+	sp := c08Span{c0, time.Now()}
+	if cl.cur != nil {
+		cl.zombies = append(cl.zombies, cl.cur)
+	}
+	cl.cur = &c08Conn{mc: mc, node: node, id: mc.ConnID, hs: sp, lastKA: sp, chain: true}
+	cl.active, cl.lastNode, cl.cloudDirty, cl.cleaned = true, node, "", 0
+	w.ev(cl, "c"+strings.ToUpper(string(rune('a'+node))), fmt.Sprintf("connect@%s=%s", n.NodeID, mc.ConnID))
+	return true
+}
+
+const c08RecoveryHeartbeats = 3
+
+func TestVerifC08Faults(t *testing.T) {
+	run := vk.Start(t, "C08", "faults")
+	defer run.Finish()
+	scens := []string{"connect", "reconnect-other-node", "relogin"}
+	run.Rule(fmt.Sprintf("per backend, two nodes on gated stores, registration lifetime 5 min, one provisioned client per history; scenarios {first control handshake, reconnect on the other node while the old connection is left to its node, re-login on the current connection}; for every storage operation (reads and writes) the handshake performed in a fault-free dry run, identified as j-th occurrence of (operation, key class), that operation fails once; then the fault is over. Bounded-recovery clause judged: if the handshake was accepted (success reply) the client heartbeats on that connection and after at most %d heartbeats every node must locate it at (node, connection) of that handshake in the connection-state lookup and in the cloud-control view; nothing is demanded earlier. After its close: not connected. A refused handshake leaves the reference unchanged. distinct = backend x scenario x failed operation (op + key class)", c08RecoveryHeartbeats))
+	type res struct{ herr string }
+	worlds := make([]*c08World, len(c08BackendNames))
+	faults := make([]*c08Fault, len(c08BackendNames))
+	for i, be := range c08BackendNames {
+		faults[i] = &c08Fault{}
+		worlds[i] = c08NewWorldF(t, run, be, c08LongTTL, 2, false, faults[i])
+	}
+	var wg sync.WaitGroup
+	for i, be := range c08BackendNames {
+		w, f, be := worlds[i], faults[i], be
+		wg.Add(1)
+		go func() {
+			defer wg.Done()
+			for _, scen := range scens {
+				// history prefix up to (excluding) the faulted handshake
+				prefix := func() *c08Client {
+					w.reset(1)
+					cl := w.clients[0]
+					// provision the identity without faults
+					mc, err := w.nodes[0].Connect("")
+					if err != nil {
+						w.harnessError("fault history: connect: %v", err)
+						return nil
+					}
+					r, herr := mc.FirstConnect()
+					if herr != nil || r == nil || !r.Success {
+						w.harnessError("fault history: provisioning: %v", herr)
+						return nil
+					}
+					cl.id, cl.secret = r.ClientID, r.SecretKey
+					mc.CloseByPeer()
+					if scen != "connect" {
+						if !w.connect(cl, 0) {
+							return nil
+						}
+						w.check()
+					}
+					return cl
+				}
+				// dry run: how many storage operations does this handshake perform?
+				cl := prefix()
+				if cl == nil {
+					return
+				}
+				order, seen, _, ok := w.handshakeWithFault(f, cl, scen, "", 0)
+				if !ok {
+					w.harnessError("fault history: fault-free %s refused", scen)
+					return
+				}
+				w.check()
+				w.closeAll()
+				type tgt struct {
+					id string
+					j  int
+				}
+				var targets []tgt
+				nOps := 0
+				for _, id := range order {
+					for j := 1; j <= seen[id]; j++ {
+						targets = append(targets, tgt{id, j})
+					}
+					nOps += seen[id]
+				}
+				run.Max("handshake_storage_ops|"+scen, int64(nOps))
+				for _, tg := range targets {
+					if run.Violations() > 60 || w.herr != "" {
+						break
+					}
+					k := fmt.Sprintf("%s#%d", tg.id, tg.j)
+					run.Case(fmt.Sprintf("%s/%s/%s", be, scen, k), nil)
+					cl := prefix()
+					if cl == nil {
+						return
+					}
+					_, _, fired, accepted := w.handshakeWithFault(f, cl, scen, tg.id, tg.j)
+					run.Eval(1)
+					if fired == "" {
+						run.Count("fault_not_reached", 1)
+					} else {
+						run.Distinct(be + "|" + scen + "|" + fired)
+						run.Count("faults_injected|"+be, 1)
+						w.trace = append(w.trace, "FAULT: "+fired+" failed once")
+					}
+					if !accepted {
+						run.Count("fault_handshake_refused", 1)
+					} else if fired != "" {
+						run.Count("fault_handshake_accepted|"+be, 1)
+					}
+					if cl.cur != nil {
+						recoveredAt := -1
+						var connOK, cloudOK bool
+						var got string
+						for hb := 0; hb <= c08RecoveryHeartbeats; hb++ {
+							if hb > 0 {
+								w.heartbeat(cl)
+							}
+							connOK, cloudOK, got = w.located(cl)
+							if connOK && cloudOK {
+								recoveredAt = hb
+								break
+							}
+						}
+						if recoveredAt >= 0 {
+							run.Count(fmt.Sprintf("located_after_%d_heartbeats", recoveredAt), 1)
+						} else {
+							// the fault is injected above the backend, the outcome does not
+							// depend on it: the backend is in the detail, not in the signature
+							for _, v := range []struct {
+								name string
+								bad  bool
+							}{{"connstate", !connOK}, {"cloud-state", !cloudOK}} {
+								if !v.bad {
+									continue
+								}
+								run.Violation(fmt.Sprintf("C08:fault|not-recovered|view=%s|failed=%s|scenario=%s", v.name, fired, scen), map[string]any{
+									"backend": be, "scenario": scen, "target": k, "failed_operation": fired, "handshake_accepted": accepted,
+									"heartbeats_after_fault": c08RecoveryHeartbeats, "answers": got,
+									"expected": fmt.Sprintf("node=%q conn=%q", w.nodes[cl.cur.node].NodeID, cl.cur.id), "trace": w.tail(),
+								})
+							}
+						}
+						if recoveredAt >= 0 {
+							w.check() // from here on the ordinary reference applies
+						}
+					}
+					// end of history: close what is left, then "not connected" is demanded
+					for _, c := range w.clients {
+						if c.cur != nil {
+							c.cur.mc.CloseByPeer()
+							c.closed[c.cur.id] = "closed"
+							c.cur = nil
+						}
+						for _, z := range c.zombies {
+							z.mc.CloseByPeer()
+							c.closed[z.id] = "late-cleanup"
+						}
+						c.zombies = nil
+					}
+					w.lastEv, w.lastCl = "x", cl.idx
+					w.check()
+				}
+			}
+		}()
+	}
+	wg.Wait()
+	for i, w := range worlds {
+		herr := w.herr
+		w.close()
+		if herr != "" {
+			t.Fatalf("c08: harness error on backend %s: %s", c08BackendNames[i], herr)
+		}
+	}
+	c08Floors(run, "faults_injected", "fault_handshake_accepted")
+	run.Floor("located_after_1_heartbeats", 1)
 }
 
 // ---------------------------------------------------------------- keep-alive (timed)
